@@ -31,6 +31,8 @@ TrackNext(h, m, t, o) ==
   \* "between the dealer and the big blind": both are players sitting at the table and able to play when the seat is taken
   LET joined == IF o.op = "Join" /\ o.res = "" /\ o.got \in SeatIds(m) /\ m.dealer # NULL /\ m.bb # NULL /\ m.dealer # m.bb
                    /\ Playable(m, m.dealer) /\ Playable(m, m.bb)
+                   \* ... of the hand the last successful move set up (a REFUSED move may shift the dealer and activate seats)
+                   /\ <<m.dealer, m.sb, m.bb>> = h.posAtNext
                    /\ o.got \in BetweenCW(m, m.dealer, m.bb) /\ m.seat[o.got].player = NULL
                 THEN {o.got} ELSE {}
       \* tracking ends when the player is dealt in, leaves, another seat changes its player or reserved flag, or a
@@ -120,14 +122,15 @@ ConcBad(pre, calls, post, flags) ==
 
 \* occAtNext : seats occupied right after the last successful move to the next hand (all seats after a jump:
 \*             nothing is then attributed to the F8 shape by mistake... conservatively none)
-HistS0 == [joins |-> 0, leaves |-> 0, track |-> [s \in {} |-> 0], occAtNext |-> {}]
-HistSJump(t) == [joins |-> Cardinality(Occupied(t)), leaves |-> 0, track |-> [s \in {} |-> 0], occAtNext |-> {}]
+HistS0 == [joins |-> 0, leaves |-> 0, track |-> [s \in {} |-> 0], occAtNext |-> {}, posAtNext |-> <<NULL, NULL, NULL>>]
+HistSJump(t) == [joins |-> Cardinality(Occupied(t)), leaves |-> 0, track |-> [s \in {} |-> 0], occAtNext |-> {}, posAtNext |-> <<NULL, NULL, NULL>>]
 HistSNext(h, m, t, o) ==
   [joins |-> h.joins + (IF o.op = "Join" /\ o.res = "" THEN 1 ELSE 0),
    leaves |-> h.leaves + (IF o.op = "Leave" /\ o.res = "" THEN 1 ELSE 0)
                        + (IF o.op = "MT.Apply" THEN Cardinality({j \in 1..Len(o.cbs) : o.cbs[j][1] = "left"}) ELSE 0),
    track |-> TrackNext(h, m, t, o),
-   occAtNext |-> IF NextOK(o) THEN Occupied(t) ELSE h.occAtNext]
+   occAtNext |-> IF NextOK(o) THEN Occupied(t) ELSE h.occAtNext,
+   posAtNext |-> IF NextOK(o) THEN <<t.dealer, t.sb, t.bb>> ELSE h.posAtNext]
 
 N(name, holds) == IF holds THEN {} ELSE {name}
 FailedSeat(h, h2, m, t, o, props) ==
